@@ -1,7 +1,7 @@
 (* Extraction of the executable models.  ExtrOcamlBasic only; no Extract Constant. *)
 From Coq Require Extraction.
 From Coq Require Import ExtrOcamlBasic.
-From BS Require Import Base.Arith Model.Queue Model.Term Model.Propensity Model.Interface Model.Builder Model.Priors Model.Sensitivity Model.Rules Model.Random Model.SSA Model.Dispatch Model.Likelihood Model.Sympy Model.SbmlExport Model.SbmlImport Model.Splitters Model.History Model.Lineage.
+From BS Require Import Base.Arith Model.Queue Model.Term Model.Propensity Model.Interface Model.Builder Model.Priors Model.Sensitivity Model.Rules Model.Random Model.SSA Model.Dispatch Model.Likelihood Model.Sympy Model.SbmlExport Model.SbmlImport Model.Splitters Model.History Model.Lineage Model.Worklist.
 Extraction "../ocaml/extracted.ml" mkArith upd
   teval prop_eval massaction_dispatch compute_plain compute_safe need_row
   species_order build_S build_Sd index_of derivative initialize_ok mkRx
@@ -15,5 +15,5 @@ Extraction "../ocaml/extracted.ml" mkArith upd
   import_rules initial_value expand mkSRule
   partition_perfect_binomial partition_general partition_lineage
   run empty observe mkDefn
-  lssa_simulate mkLin
+  lssa_simulate mkLin simulate_lineage mkSplitter mkCell
   q_make q_add q_peek q_advance q_set_time q_copy q_clear_copy q_pending q_partition q_offset.
